@@ -153,14 +153,46 @@ theorem generic_fold_requires (ctx : Ctx) (st st' : St) (n n' : Node) (version :
               · rename_i c hor
                 exact ⟨hins, emitFold_requires ctx st2 st' n n' c r h, hsubs, by simpa using hconst, c, st2, hor⟩
 
-/-! ### refuted clauses (findings) -/
+/-! ### overridable initializer-inputs are never read as constants (after fix 3131a7c) -/
+
+/-- **Initializer-inputs are never constants for an evaluator** (`_get_numpy_value` after commit
+3131a7c): for a graph input — whatever `const_value` its default carries — every way an evaluator
+reads a constant (`_get_numpy_value` with any dtype filter and size limit, `_get_bool_value`)
+answers `None`; `get_shape_value` can then only come from the symbolic map.  Together with
+`graph_input_guard` no default is ever folded into the graph. -/
+theorem initializer_input_never_constant (st : St) (x : Name) (hg : st.isGraphInput x = true)
+    (dtype limit : Option Nat) :
+    numpyValue st (some x) dtype limit = none ∧ boolValue st (some x) = none ∧
+    shapeValue st (some x) = (match st.getSym (some x) with | some (.shape s) => some s | _ => none) := by
+  have h1 : ∀ d l, numpyValue st (some x) d l = none := by
+    intro d l
+    simp only [numpyValue, hg, if_true]
+  refine ⟨h1 dtype limit, ?_, ?_⟩
+  · simp only [boolValue, h1]
+  · simp only [shapeValue, h1]
+    cases st.getSym (some x) with
+    | none => rfl
+    | some sv => cases sv <;> rfl
+
+/-- `SplitToSequence` folding is only attempted from opset 18 on (commit 37e2648), so
+`Split(num_outputs=…)` — an attribute that exists from opset 18 — is never emitted below it. -/
+theorem split_to_sequence_needs_opset18 (n : Node) (v : Nat) (hop : n.op = "SplitToSequence") (hv : v < 18) :
+    (lookupEvaluator n v).isNone = true := by
+  unfold lookupEvaluator
+  split
+  · rfl
+  · simp only [hop]
+    have : ¬ (v ≥ 18) := by omega
+    simp [this]
+
+/-! ### refuted clauses (findings) and regression witnesses of fixed ones -/
 
 def ctxW (v : Nat) : Ctx :=
   { inLimit := 8192, outLimit := 262144, shouldFold := none, imports := [("", v)], isFunction := false, toks := [], oracle := [] }
 
 def tokS : CInfo := { tok := "t0", dtype := 7, shape := [2], ints := some [2, 3], isZero := none }
 
-/-- `Reshape(x:[2,3], s)` where `s = [2,3]` is an initializer **and** a graph input. -/
+/-- `Reshape(x:[2,3], s)` where `s = [2,3]` is an initializer **and** a graph input (C04-D1, fixed). -/
 def gReshape : Graph :=
   .mk ["x", "s"] [("s", "t0")] [.mk "Reshape" "" [some "x", some "s"] ["y"] [] []] ["y"]
 
@@ -168,22 +200,34 @@ def infoReshape : List (Name × VInfo) :=
   [("x", { dtype := some 1, shape := some [.known 2, .known 3] }),
    ("s", { dtype := some 7, shape := some [.known 2], const := some tokS })]
 
-/-- **C04-D1.**  The full clause "an initializer that is also a graph input is never folded, and
-keeps its default" is false of the code as modelled: the `Reshape` evaluator runs before the
-guard, reads the default of `s`, replaces the node by `Identity(x)` and the initializer is then
-popped while `s` stays a formal input. -/
+/-- Regression witness of C04-D1 (fixed by 3131a7c): the `Reshape` fed by the initializer-input is
+kept and the initializer stays. -/
+theorem overridable_reshape_kept :
+    (foldGraph (ctxW 18) infoReshape gReshape).2.nodes.map (fun n => (n.op, n.inputs)) = [("Reshape", [some "x", some "s"])] ∧
+    (foldGraph (ctxW 18) infoReshape gReshape).2.inits.map (·.1) = ["s"] := by
+  decide
+
+def tokW : CInfo := { tok := "t0", dtype := 1, shape := [3], ints := none, isZero := none }
+
+/-- `s = Shape(w)` with `w : float[3]` an initializer **and** a graph input. -/
+def gShapeW : Graph :=
+  .mk ["x", "w"] [("w", "t0")]
+    [.mk "Shape" "" [some "w"] ["s"] [] [], .mk "Add" "" [some "x", some "x"] ["y"] [] []] ["s", "y"]
+
+def infoShapeW : List (Name × VInfo) :=
+  [("x", { dtype := some 1, shape := some [.known 3] }),
+   ("w", { dtype := some 1, shape := some [.known 3], const := some tokW })]
+
+/-- **C04-D6 (open).**  The full clause "an initializer that is also a graph input keeps its
+default" is still false: `Shape(w)` needs no value, is replaced by `Constant([3])`, and
+`_clear_unused_initializers` then pops `w` although `w` stays a formal input. -/
 theorem overridable_inputs_kept_full_refuted :
     ¬ (∀ (ctx : Ctx) (info : List (Name × VInfo)) (g : Graph) (x : Name),
         x ∈ g.inputs → x ∈ g.inits.map (·.1) →
         x ∈ (foldGraph ctx info g).2.inits.map (·.1)) := by
   intro h
-  have := h (ctxW 18) infoReshape gReshape "s" (by decide) (by decide)
+  have := h (ctxW 18) infoShapeW gShapeW "w" (by decide) (by decide)
   revert this
-  decide
-
-/-- …and the node consuming the initializer-input was replaced by `Identity(x)`. -/
-theorem overridable_input_consumer_folded :
-    (foldGraph (ctxW 18) infoReshape gReshape).2.nodes.map (fun n => (n.op, n.inputs)) = [("Identity", [some "x"])] := by
   decide
 
 def stSplit : St :=
@@ -195,14 +239,10 @@ def isError : PRes → Bool
   | .error _ => true
   | _ => false
 
-/-- **C04-D2.**  Totality is false: `SplitToSequence(x:[6,2], sp)` with a non-constant scalar
-`sp` (static shape `[]`) — a checker-valid model that executes — drives `split_to_sequence` into
-`split_value.ndim` on `None` (AttributeError → RuntimeError → PassError). -/
-theorem fold_total_full_refuted :
-    ¬ (∀ (ctx : Ctx) (st : St) (n : Node), isError (processNode ctx st n).1 = false) := by
-  intro h
-  have := h (ctxW 18) stSplit nSplit
-  revert this
+/-- Regression witness of C04-D2 (fixed by 5b73ec4): `SplitToSequence(x:[6,2], sp)` with a
+non-constant scalar `sp` no longer raises — the node is kept. -/
+theorem dynamic_scalar_split_kept :
+    isError (processNode (ctxW 18) stSplit nSplit).1 = false := by
   decide
 
 def tokTwo : CInfo := { tok := "t1", dtype := 7, shape := [], ints := some [2], isZero := some false }
@@ -217,14 +257,11 @@ def infoSplit17 : List (Name × VInfo) :=
 def usesNumOutputs (g : Graph) : Bool :=
   g.nodes.any fun n => n.op == "Split" && (n.attr "num_outputs").isSome
 
-/-- **C04-D3.**  "Every node of the result is valid for the model's opset" is false: below opset
-18 (`Split` has no `num_outputs` attribute there) the evaluator still emits `Split(num_outputs=k)`. -/
-theorem fold_opset_valid_full_refuted :
-    ¬ (∀ (v : Nat) (info : List (Name × VInfo)) (g : Graph), v < 18 → usesNumOutputs g = false →
-        usesNumOutputs (foldGraph (ctxW v) info g).2 = false) := by
-  intro h
-  have := h 17 infoSplit17 gSplit17 (by decide) (by decide)
-  revert this
+/-- Regression witness of C04-D3 (fixed by 37e2648): under opset 17 nothing is rewritten; under
+opset 18 the same graph does get `Split(num_outputs=2)`. -/
+theorem split_num_outputs_only_from_opset18 :
+    usesNumOutputs (foldGraph (ctxW 17) infoSplit17 gSplit17).2 = false ∧
+    usesNumOutputs (foldGraph (ctxW 18) infoSplit17 gSplit17).2 = true := by
   decide
 
 def tokC : CInfo := { tok := "t0", dtype := 1, shape := [1, 2], ints := none, isZero := none }
@@ -233,7 +270,8 @@ def ctxClash : Ctx :=
   { inLimit := 8192, outLimit := 262144, shouldFold := none, imports := [("", 18)], isFunction := false,
     toks := [("t0", tokC)],
     oracle := [("SequenceConstruct||18|t0&t0|", .fail),
-               ("Unsqueeze||18|t0&int:0|", .single { tok := "f1", dtype := 1, shape := [1, 1, 2], ints := none, isZero := none })] }
+               ("Unsqueeze||18|t0&int:0|", .single { tok := "f1", dtype := 1, shape := [1, 1, 2], ints := none, isZero := none }),
+               ("Concat||18|f1&f1|axis=i:0", .single { tok := "f2", dtype := 1, shape := [2, 1, 2], ints := none, isZero := none })] }
 
 /-- `s = SequenceConstruct(c, c); t = ConcatFromSequence(s, axis=0, new_axis=1); y = Add(x, t)`, `c` an initializer. -/
 def gClash : Graph :=
@@ -246,13 +284,10 @@ def infoClash : List (Name × VInfo) :=
   [("x", { dtype := some 1, shape := some [.known 2, .known 1, .known 2] }),
    ("c", { dtype := some 1, shape := some [.known 1, .known 2], const := some tokC })]
 
-/-- **C04-D5.**  Totality is false a second way: both `Unsqueeze` nodes the `ConcatFromSequence`
-evaluator creates for the repeated element `c` carry the output name `c_unsqueeze`; both are
-folded, and registering the second initializer under the same name raises. -/
-theorem fold_total_nameclash_refuted :
-    ¬ (∀ (ctx : Ctx) (info : List (Name × VInfo)) (g : Graph),
-        (foldGraph ctx info g).1.err ≠ some "register_initializer: name already registered") := by
-  intro h
-  exact h ctxClash infoClash gClash (by decide)
+/-- Regression witness of C04-D5 (fixed by b6866ae): the two `Unsqueeze` outputs are now named
+`c_unsqueeze_0` / `c_unsqueeze_1`; both are folded without a name clash. -/
+theorem repeated_element_no_nameclash :
+    (foldGraph ctxClash infoClash gClash).1.err = none := by
+  decide
 
 end OV.Props.C04
